@@ -67,7 +67,18 @@ func TestVerifC05(t *testing.T) {
 	steps := verifutil.Scale(300, 450)
 	for sc := 0; sc < nScen; sc++ {
 		seed := scenSeed(sc)
-		w := NewWorld(optsFor(sc, seed))
+		o5 := optsFor(sc, seed)
+		// a few identities start with invitations to give away (the inviter story needs >= 3 invitees)
+		o5.GenesisTweak = func(w *World, st *state.StateDB) {
+			n := 0
+			for _, a := range w.SortedActors() {
+				if a != w.God && !isNode(w, a) && n < 6 {
+					st.SetInvites(a.Addr, 5)
+					n++
+				}
+			}
+		}
+		w := NewWorld(o5)
 		twin := w.AddTwin()
 		if !startScenario(w, rep, false) {
 			w.Cleanup()
@@ -75,6 +86,7 @@ func TestVerifC05(t *testing.T) {
 		}
 		s := NewScenario(w, verifutil.NewRng(seed, 5))
 		s.Hostile, s.MaxTxs = 20, 4
+		inviter := &inviterStory{}
 		for i := 0; i < steps; i++ {
 			rep.Progress("C05 scenario %d seed %d step %d", sc, seed, i)
 			for k := 0; k < 3; k++ {
@@ -87,6 +99,13 @@ func TestVerifC05(t *testing.T) {
 					s.SubmitGen(g)
 				}
 			}
+			if i%6 == 3 {
+				for _, g := range w.ForgedSignatureTxs(s.R) {
+					rep.Count("attempted:"+g.Kind, 1)
+					twinSpend(w, twin, rep, g)
+				}
+			}
+			inviter.advance(w, s, twin, rep)
 			// a contract call failing mid-execution followed by a successful contract tx of the same
 			// signer: third parties must not end lower than without the two txs
 			if i%15 == 7 {
@@ -129,6 +148,9 @@ func TestVerifC05(t *testing.T) {
 					if len(full.Receipts) == 2 && !full.Receipts[0].Success && full.Receipts[1].Success {
 						rep.Count("twin_triples_failed_midway_then_succeeded", 1)
 					}
+					if sq.Victim == sq.Signer {
+						continue // the destination is the signer itself: it pays the fees of its own txs
+					}
 					vb, vf := base.Post1.State.GetBalance(sq.Victim), full.Post1.State.GetBalance(sq.Victim)
 					if vf.Cmp(vb) < 0 {
 						rep.Violation("foreign-funds-lowered:contract-failure,transfer,success", fmt.Sprintf("signer %x: [contract call to %x failing mid-execution, transfer to %x, successful contract tx] leaves %x with %v, the transfer alone with %v",
@@ -154,14 +176,28 @@ func TestVerifC05(t *testing.T) {
 func twinSpend(w *World, twin *Replica, rep *verifutil.Report, g *Gen) {
 	pre := twin.AppState.State
 	tx := g.Tx
-	signer := senderOf(tx)
+	// who signed is decided with the crypto primitives alone, not by the code under test
+	signer, signed := SignerOf(tx)
+	if !signed {
+		signer = common.Address{0xff, 0xfe, 0xfd} // nobody: every lowered account is a third party
+		rep.Count("twins_with_unrecoverable_signature", 1)
+	}
 	rel := relationOf(w, pre, tx)
 	// exceptions decided from the PRE-state, independently of the validators
 	exempt := map[common.Address]string{}
 	if tx.To != nil {
 		tid := pre.GetIdentity(*tx.To)
+		// the relationship is the one the ledger records, with one addition from the history: an
+		// identity that terminated itself is no longer the inviter of the invitees that had ACTIVATED
+		// their invitation (KillTx severs the links with everybody on the inviter's invitee list;
+		// invitations that were never activated are not on that list and stay killable)
 		if tx.Type == types.KillInviteeTx && tid.Inviter != nil && tid.Inviter.Address == signer {
-			exempt[*tx.To] = "inviter terminates own invitee"
+			ss := pre.GetIdentityState(signer)
+			if signer != pre.GodAddress() && (ss == state.Killed || ss == state.Undefined) && tid.State == state.Candidate {
+				rep.Count("kill_invitee_by_terminated_inviter_of_an_activated_invitee", 1)
+			} else {
+				exempt[*tx.To] = "inviter terminates own invitee"
+			}
 		}
 		if d := tid.Delegatee(); tx.Type == types.KillDelegatorTx && d != nil && *d == signer {
 			exempt[*tx.To] = "pool terminates own delegator"
@@ -636,5 +672,112 @@ func (p *poolStory) advance(w *World, s *Scenario, rep *verifutil.Report) {
 			rep.Count("pool_stories_completed", 1)
 			p.reset()
 		}
+	}
+}
+
+// inviterStory: an identity invites three or four addresses, some of them get stake, then the
+// inviter terminates ITSELF (which severs all its invitation links) and afterwards its key tries
+// to terminate each former invitee.
+type inviterStory struct {
+	phase    int
+	inviter  *Actor
+	invitees []*Actor
+	waited   int
+	round    int
+}
+
+func (p *inviterStory) reset() { *p = inviterStory{round: p.round + 1} }
+
+func (p *inviterStory) advance(w *World, s *Scenario, twin *Replica, rep *verifutil.Report) {
+	st := w.View().AppState.State
+	if st.ValidationPeriod() != state.NonePeriod {
+		if p.phase > 0 {
+			p.reset() // an epoch in between changes who is what: start over afterwards
+		}
+		return
+	}
+	p.waited++
+	if p.waited > 50 {
+		rep.Count("inviter_story_abandoned_in_phase_"+fmt.Sprint(p.phase), 1)
+		p.reset()
+		return
+	}
+	switch p.phase {
+	case 0:
+		for _, a := range w.SortedActors() {
+			id := st.GetIdentity(a.Addr)
+			if a == w.God || isNode(w, a) || id.Invites < 3 || !(id.State == state.Verified || id.State == state.Human) || len(id.Invitees) > 0 || st.GetBalance(a.Addr).Cmp(Dna(20)) < 0 {
+				continue
+			}
+			p.inviter = a
+			break
+		}
+		if p.inviter == nil {
+			return
+		}
+		n := 4 + p.round%2
+		for k := 0; k < n; k++ {
+			inv := w.AddActor("sinvitee", p.round*10+k)
+			p.invitees = append(p.invitees, inv)
+			s.SubmitGen(&Gen{Tx: w.Tx(p.inviter, types.InviteTx, &inv.Addr, Dna(2), nil), Kind: "story:Invite"})
+		}
+		p.phase, p.waited = 1, 0
+	case 1: // invitations mined? give the invitees some stake and let one of them activate
+		have := 0
+		for _, inv := range p.invitees {
+			if id := st.GetIdentity(inv.Addr); id.Inviter != nil && id.Inviter.Address == p.inviter.Addr {
+				have++
+			}
+		}
+		if have < 3 {
+			return
+		}
+		for k, inv := range p.invitees {
+			if st.GetIdentityState(inv.Addr) == state.Invite {
+				ia := inv.Addr
+				s.SubmitGen(&Gen{Tx: w.Tx(w.God, types.ReplenishStakeTx, &ia, Dna(int64(3+k)), nil), Kind: "story:ReplenishStake-of-invitee"})
+				if k != 0 { // one invitation stays pending, the others are activated (they enter the inviter's invitee list)
+					s.SubmitGen(&Gen{Tx: w.Tx(inv, types.ActivationTx, &ia, nil, inv.Pub), Kind: "story:Activation"})
+				}
+			}
+		}
+		p.phase, p.waited = 2, 0
+	case 2: // stakes in? the inviter terminates itself
+		staked, listed := 0, len(st.GetIdentity(p.inviter.Addr).Invitees)
+		for _, inv := range p.invitees {
+			if st.GetStakeBalance(inv.Addr).Sign() > 0 {
+				staked++
+			}
+		}
+		if (staked < 2 || listed < 3) && p.waited < 8 {
+			return
+		}
+		if listed >= 3 {
+			rep.Count("inviter_story_inviters_with_3_or_more_activated_invitees", 1)
+		}
+		rep.Count("inviter_story_inviters_with_3_or_more_invitees", 1)
+		s.SubmitGen(&Gen{Tx: w.Tx(p.inviter, types.KillTx, nil, nil, nil), Kind: "story:inviter-terminates-itself"})
+		p.phase, p.waited = 3, 0
+	case 3:
+		if ss := st.GetIdentityState(p.inviter.Addr); ss != state.Killed && ss != state.Undefined {
+			return
+		}
+		if st.GetBalance(p.inviter.Addr).Cmp(Dna(1)) < 0 {
+			s.SubmitGen(&Gen{Tx: w.Tx(w.God, types.SendTx, &p.inviter.Addr, Dna(10), nil), Kind: "story:fund-former-inviter"})
+			return
+		}
+		for _, inv := range p.invitees {
+			ia := inv.Addr
+			if ss := st.GetIdentityState(ia); ss == state.Invite || ss == state.Candidate {
+				g := &Gen{Tx: w.Tx(p.inviter, types.KillInviteeTx, &ia, nil, nil), Kind: "relation:KillInvitee/by-former-inviter-that-terminated-itself"}
+				rep.Count("attempted:"+g.Kind, 1)
+				if st.GetStakeBalance(ia).Sign() > 0 {
+					rep.Count("attempted:"+g.Kind+"/invitee-has-stake", 1)
+				}
+				twinSpend(w, twin, rep, g)
+			}
+		}
+		rep.Count("inviter_stories_completed", 1)
+		p.reset()
 	}
 }
